@@ -193,4 +193,9 @@ def entryOf (s : Schema) : Str × FlowControlCache := (s.name, ⟨expectedLocal 
 /-- the limiter server's entry for a schema with a global member -/
 def hasGlobal (s : Schema) : Bool := s.globalTokenBucket.isSome || s.globalMaxRequestsInflight.isSome
 
+/-- the limiter server's global limiters an accepted object asks for: one per schema with a global member, of the
+    configured kind and numbers -/
+def globalEntries (schemas : List Schema) : List (Str × GlobalFC) :=
+  schemas.filterMap (fun s => (expectedGlobal s).map (fun g => (s.name, g)))
+
 end KG.Spec.Validate
